@@ -357,6 +357,7 @@ def main():
     known_classes = {(f["property"], f["class"]): f for f in known.get("findings", [])}
     oracle_fail = meta["oracle_failures"] if meta else []
     seen_known = set()
+    by_class = {}
     for f in oracle_fail:
         key = (pid, f["class"])
         if key in known_classes:
@@ -364,8 +365,14 @@ def main():
                 seen_known.add(key)
                 known_lines.append("KNOWN-FINDING: property=%s %s" % (pid, known_classes[key]["what"]))
         else:
-            path = write_replay(pid, {"property": pid, "class": f["class"], "what": f["what"], "replay": f["replay"]})
-            violations.append((path, True, f["what"]))
+            # one VIOLATION per failing class, with the smallest failing input of that class as replay
+            cur = by_class.get(f["class"])
+            if cur is None or len(json.dumps(f["replay"])) < len(json.dumps(cur["replay"])):
+                by_class[f["class"]] = f
+    for cls, f in sorted(by_class.items()):
+        n_cls = len([g for g in oracle_fail if g["class"] == cls])
+        path = write_replay(pid, {"property": pid, "class": cls, "what": f["what"], "replay": f["replay"], "failing_inputs_of_this_class": n_cls})
+        violations.append((path, True, "%s [class %s, %d failing inputs]" % (f["what"], cls, n_cls)))
     # a listed known finding must still reproduce (otherwise say so; it is not an alarm)
     for (p_, c_), f in known_classes.items():
         if p_ == pid and (p_, c_) not in seen_known and meta is not None and not replay:
